@@ -765,6 +765,17 @@ func c06LoopShape(c *Ctx, r *Report, an *Anchors, p *Prov) {
 				} else if c.errNonNilOf(f.cond, f.pol, "MarshalOrdered") || c.errValNonNilOf(f.cond, f.val, f.pol, "MarshalOrdered") {
 					just = "serialiser-error"
 				}
+				// the redactor handed back no entry at all (a defensive test: there is nothing to
+				// serialise; that the line function returns the parsed entry itself is C04-R1's rule)
+				if x, _, isNil := nilCompare(f.cond); isNil && just == "" {
+					if bo, ok := f.cond.(*ssa.BinOp); ok && ((bo.Op == token.EQL) == f.pol) {
+						if ex, ok := peel(x).(*ssa.Extract); ok && ex.Index == 0 {
+							if rc, ok := ex.Tuple.(*ssa.Call); ok && calleeKey(&rc.Call) == c.pkgFn("RedactMongoLog") {
+								just = "redactor-returned-nothing"
+							}
+						}
+					}
+				}
 				if bo, ok := f.cond.(*ssa.BinOp); ok && (bo.Op == token.EQL || bo.Op == token.NEQ) {
 					eq := (bo.Op == token.EQL) == f.pol
 					for _, pair := range [][2]ssa.Value{{bo.X, bo.Y}, {bo.Y, bo.X}} {
@@ -1574,7 +1585,41 @@ func parserStrictRule(c *Ctx, r *Report, rule string) {
 			return false
 		}
 		k := calleeKey(&call.Call)
-		if k != "(*encoding/json.Decoder).Token" && k != "(*encoding/json.Decoder).More" {
+		// (Decoder.More is no such check: it also answers false before a stray `]` or `}`, so
+		// `{...}}` would pass - seeded C06_N; the end of the input is what a further token read
+		// reports as io.EOF)
+		if k != "(*encoding/json.Decoder).Token" {
+			return false
+		}
+		// the read's error is compared with io.EOF (== / != / errors.Is)
+		cmpEOF := false
+		isEOF := func(v ssa.Value) bool {
+			ld, ok := peel(v).(*ssa.UnOp)
+			if !ok {
+				return false
+			}
+			g, ok := ld.X.(*ssa.Global)
+			return ok && g.Pkg != nil && g.Pkg.Pkg.Path() == "io" && g.Name() == "EOF"
+		}
+		for _, u := range referrers(call) {
+			ex, ok := u.(*ssa.Extract)
+			if !ok || ex.Index != 1 {
+				continue
+			}
+			for _, u2 := range referrers(ex) {
+				switch x := u2.(type) {
+				case *ssa.BinOp:
+					if (x.Op == token.EQL || x.Op == token.NEQ) && (isEOF(x.X) || isEOF(x.Y)) {
+						cmpEOF = true
+					}
+				case *ssa.Call:
+					if calleeKey(&x.Call) == "errors.Is" && len(x.Call.Args) == 2 && isEOF(x.Call.Args[1]) {
+						cmpEOF = true
+					}
+				}
+			}
+		}
+		if !cmpEOF {
 			return false
 		}
 		// its result must steer a branch one of whose sides returns a non-nil error
@@ -1598,6 +1643,10 @@ func parserStrictRule(c *Ctx, r *Report, rule string) {
 					visit(x, depth+1)
 				case *ssa.UnOp:
 					visit(x, depth+1)
+				case *ssa.Call:
+					if calleeKey(&x.Call) == "errors.Is" {
+						visit(x, depth+1)
+					}
 				}
 			}
 		}
@@ -1624,7 +1673,7 @@ func parserStrictRule(c *Ctx, r *Report, rule string) {
 		where = append(where, c.InstrPos(e.Instr))
 	}
 	r.Check(len(ends) == 0, rule, un.Name()+":nothing-after-the-object", c.InstrPos(pvCall),
-		"every success return of the entry point has checked (decoder Token/More with an error branch) that nothing follows the top-level value",
+		"every success return of the entry point has checked (a further decoder Token whose error is compared with io.EOF, with an error branch) that nothing follows the top-level value",
 		fmt.Sprintf("the entry point reports success at %v without checking what follows the first JSON value: a line that is not JSON (object followed by text or by a second object) still produces a record", where))
 }
 
